@@ -2,6 +2,7 @@
 mod dump;
 mod extract_restr;
 mod extract_tables;
+mod obs;
 mod run;
 mod rs2lean;
 
@@ -43,23 +44,35 @@ fn main() -> ExitCode {
             println!("{}", run::cmd_gen(&args[2], &args[3], &args[4]));
             ExitCode::SUCCESS
         }
+        Some("obs") if args.len() == 3 => {
+            let src = fs::read_to_string(&args[2]).unwrap_or_default();
+            print!("{}", obs::observe(&src));
+            ExitCode::SUCCESS
+        }
         Some("dump") if args.len() == 4 => {
             println!("{}", run::cmd_dump(&args[2], &args[3]));
             ExitCode::SUCCESS
         }
         Some("batch") => {
-            // stdin lines: <dir> <start> <out-rs|-> <out-dump|->
+            // stdin lines: <dir> <start> <out-rs|-> <out-dump|-> <out-obs|->
             use std::io::BufRead;
             for line in std::io::stdin().lock().lines().map_while(Result::ok) {
                 let f: Vec<&str> = line.split('\t').collect();
-                if f.len() != 4 {
+                if f.len() != 5 {
                     println!("bad-line");
                     continue;
                 }
                 if f[3] != "-" {
                     run::cmd_dump(f[0], f[3]);
                 }
-                println!("{}", run::cmd_gen(f[0], f[1], f[2]));
+                let r = run::cmd_gen(f[0], f[1], f[2]);
+                if f[4] != "-" && r.starts_with("ok") {
+                    let src = fs::read_to_string(f[2]).unwrap_or_default();
+                    // observe the generated part only (the appended runtime is fixed text)
+                    let cut = src.find("pub mod error {").unwrap_or(src.len());
+                    let _ = fs::write(f[4], obs::observe(&src[..cut]));
+                }
+                println!("{r}");
             }
             ExitCode::SUCCESS
         }
